@@ -38,8 +38,14 @@ DT = {"int8": torch.int8, "float32": torch.float32, "float64": torch.float64,
 	"int64": torch.int64}
 
 
+_PERM = {"on": False}
+
+
 def alpha(A):
-	return gen.LETTERS[:A]
+	"""The alphabet of size A; in 'permuted' mode the same letters in another
+	order (same motif strings, same alphabet size, other encoding)."""
+	a = gen.LETTERS[:A]
+	return a[::-1] if _PERM["on"] else a
 
 
 def idx_all(A, L):
@@ -138,6 +144,14 @@ def describe(params, idx, b, got, exp, A):
 
 
 def run_case(cls, params, rec):
+	_PERM["on"] = bool(params.get("perm_alphabet"))
+	try:
+		return _run_case(cls, params, rec)
+	finally:
+		_PERM["on"] = False
+
+
+def _run_case(cls, params, rec):
 	fn = params["fn"]
 	if fn in ("substitute", "insert"):
 		return case_subins(cls, params, rec)
@@ -535,6 +549,11 @@ def run_exh(unit, rec):
 				if k % 3 == 0:
 					pr["startkind"] = "npint"
 				run_case(cls, pr, rec)
+		# the same motif strings under the reversed alphabet (same size)
+		for mot in allm[:12]:
+			for p in (0, max(0, L - len(mot))):
+				run_case(cls, dict(base, motif=mot, form="str", start=p,
+					perm_alphabet=True), rec)
 		# per-example motifs: example b receives motif (b*7+3+r) of length m
 		for m in (1, 2, 3):
 			mm = [x for x in allm if len(x) == m]
@@ -615,7 +634,8 @@ def run_rand(unit, rec):
 		fn = r.choice(["substitute", "insert", "delete", "multisubstitute",
 			"randomize"])
 		base = {"fn": fn, "A": A, "seqs": seqs,
-			"xdtype": r.choice(["int8", "int8", "float32", "float64"])}
+			"xdtype": r.choice(["int8", "int8", "float32", "float64"]),
+			"perm_alphabet": it % 2 == 1}
 		if fn in ("substitute", "insert"):
 			form = r.choice(["str", "t1", "tB", "tB", "tWrong"])
 			if form in ("str", "t1"):
